@@ -2,6 +2,7 @@ import AsynqModel.Lib.Dedup
 import AsynqModel.Proofs.Dedup
 import AsynqModel.Proofs.DedupSim
 import AsynqModel.Proofs.DedupCall
+import AsynqModel.Proofs.DedupInv
 /-!
 # C12  deduplicate: one in-flight execution per key, shared by all callers
 
@@ -164,6 +165,74 @@ theorem C12_instances_disjoint (d : FnDecl) (c1 c2 : Spell) (i j : Nat) (t1 t2 :
       subst hk1; subst hk2
       simp [hij]
 
+
+/-! ### thread identity, leftover entries, number of keys in flight (round 3)
+
+The theorems below need NO hypothesis on the signatures and speak about the table of the model alone. -/
+
+/-- **a shared task was created under the caller's own key**: after EVERY history, when a call is answered with an
+    already existing task, that task was created by a call with exactly the same key - same argument tuple, same
+    function and same THREAD token - it is registered and it has not completed.  In particular a thread never
+    receives a task that another thread (for instance an earlier, finished thread whose ident or name the OS
+    recycled) left in flight, and a completed task is never handed out again. -/
+theorem C12_shared_task_has_callers_key (fns : List FnDecl) (ops : List Op) (c : Spell) (t : Nat)
+    (h : (step fns (finalState fns St.init ops) (.call c)).2 = .ret t false) :
+    ∃ d tup task, fns[c.fn]? = some d ∧ d.sig.key (effArgs d c) c.kw = .ok tup ∧
+      (finalState fns St.init ops).tasks[t]? = some task ∧
+      task.key = { tup := tup, th := c.th, fn := c.fn } ∧ task.reg = true ∧ task.out = none := by
+  have hwf := wf_final fns ops St.init wf_init
+  generalize finalState fns St.init ops = s at h hwf
+  simp only [step] at h
+  split at h
+  · simp at h
+  · rename_i d hd
+    split at h
+    · simp at h
+    · rename_i tup hk
+      split at h
+      · simp only [create] at h
+        split at h <;> simp at h
+      · rename_i t0 hm
+        split at h
+        · simp at h
+        · rename_i task0 ht0
+          split at h
+          · simp only [create] at h
+            split at h <;> simp at h
+          · simp only [Res.ret.injEq, and_true] at h
+            subst h
+            obtain ⟨a, ha, hka, hra, hoa⟩ := hwf _ _ hm
+            exact ⟨d, tup, a, hd, hk, ha, hka, hra, hoa⟩
+
+/-- the end of a thread runs no code: state and table are unchanged (entries of the finished thread stay) -/
+theorem C12_thread_end_noop (fns : List FnDecl) (s : St) (th : Nat) :
+    step fns s (.threadEnd th) = (s, .unit) := rfl
+
+/-- **no capacity**: the entry of a key survives ANY NUMBER of operations that work on other keys (calls that create
+    arbitrarily many other in-flight tasks, dirty() and completions of other keys, scheduling of any task, ends of
+    threads) -/
+theorem C12_entry_survives_others (fns : List FnDecl) (s : St) (k : Key) (ops : List Op)
+    (h : avoids fns k s ops = true) :
+    mget (finalState fns s ops).table k = mget s.table k :=
+  avoids_keeps fns k ops s h
+
+/-- **sharing does not depend on how much else is in flight**: if after some history the table holds task `t` for the
+    key of call `c`, then after any further history of ANY length that does not work on that key, `c` is still
+    answered with `t` (unless `t`'s body is executing at that moment) and nothing changes -/
+theorem C12_shared_after_any_fanout (fns : List FnDecl) (ops0 ops : List Op) (c : Spell) (d : FnDecl)
+    (tup : List KeyElem) (t : Nat)
+    (hd : fns[c.fn]? = some d) (hk : d.sig.key (effArgs d c) c.kw = .ok tup)
+    (hm : mget (finalState fns St.init ops0).table { tup := tup, th := c.th, fn := c.fn } = some t)
+    (hav : avoids fns { tup := tup, th := c.th, fn := c.fn } (finalState fns St.init ops0) ops = true)
+    (hr : ∀ task, (finalState fns (finalState fns St.init ops0) ops).tasks[t]? = some task → task.running = false) :
+    step fns (finalState fns (finalState fns St.init ops0) ops) (.call c) =
+      (finalState fns (finalState fns St.init ops0) ops, .ret t false) := by
+  have hwf := wf_final fns ops _ (wf_final fns ops0 St.init wf_init)
+  have hm' := avoids_keeps fns _ ops _ hav
+  rw [hm] at hm'
+  obtain ⟨task, ht, _, _, _⟩ := hwf _ _ hm'
+  exact C12_inflight_shared fns _ c d tup t task hd hk hm' ht (hr task ht)
+
 /-! non-vacuity -/
 
 /-- a history with sharing, two spellings, a private re-entrant task, completion and re-creation satisfies the
@@ -197,6 +266,25 @@ example :
 /-- the observer is not trivially true: it rejects a history in which the second caller gets its own task -/
 example :
     spec cexFns [{ op := .call cexCall, res := .ret 0 true, size := 1 }, { op := .call cexCall, res := .ret 1 true, size := 1 }] = false := by
+  decide
+
+/-- threads and fan-out: thread 1 leaves key (1) in flight and ends; a later thread 4 (a different token) gets its own
+    task; three more keys go in flight; thread 4 asks again and shares its own task 1 -/
+def thC (th v : Nat) : Spell := { fn := 0, recv := .none, args := [v], kw := [], th := th }
+def thOps : List Op := [.call (thC 1 1), .threadEnd 1, .call (thC 4 1), .call (thC 4 2), .call (thC 4 3), .call (thC 0 1),
+  .call (thC 4 1)]
+
+example :
+    (run cexFns St.init thOps).map (·.res) =
+      [.ret 0 true, .unit, .ret 1 true, .ret 2 true, .ret 3 true, .ret 4 true, .ret 1 false] ∧
+    spec cexFns (run cexFns St.init thOps) = true ∧
+    avoids cexFns { tup := [.v 1], th := 1, fn := 0 } (finalState cexFns St.init [.call (thC 1 1)]) (thOps.drop 1) = true := by
+  decide
+
+/-- the observer rejects the history in which the later thread 4 is handed the task of the finished thread 1 -/
+example :
+    spec cexFns [{ op := .call (thC 1 1), res := .ret 0 true, size := 1 }, { op := .threadEnd 1, res := .unit, size := 1 },
+      { op := .call (thC 4 1), res := .ret 0 false, size := 1 }] = false := by
   decide
 
 end AsynqModel.Dedup
